@@ -235,8 +235,91 @@ class NP:
         return ite(sbool(c), a, b)
 
     def sum(self, a, axis=None):
-        from . import reductions
-        return reductions.total(a)
+        """Total of an array: ghost Total(array identity); only equalities between totals of
+        arrays proved elementwise equal are ever needed."""
+        if axis is not None:
+            raise Undecided("sum over an axis")
+        run = engine()
+        sums = run.__dict__.setdefault("sums", [])
+        nm = "Total%d" % len(sums)
+        val = Num(z3.Real(nm), True) if a.dtype != "complex" else Cx(Num(z3.Real(nm + "_re"), True), Num(z3.Real(nm + "_im"), True))
+        sums.append((a, val))
+        return val
+
+    def cumsum(self, a):
+        """cumsum(a)[r] = Prefix_a(r+1), Prefix(0) = 0, Prefix(r+1) = Prefix(r) + a[r] (ghost)."""
+        if a.ndim != 1:
+            raise Undecided("cumsum of n-d")
+        run = engine()
+        ghosts = run.__dict__.setdefault("prefix_ghosts", [])
+        gid = len(ghosts)
+        f = z3.Function("Prefix%d" % gid, z3.IntSort(), z3.RealSort())
+
+        def prefix(r):
+            r = num(r)
+            if r.concrete and r.t == 0:
+                return Num(0, True)
+            return Num(f(r.z()), True)
+        ghosts.append({"array": a, "prefix": prefix, "fn": f})
+        n = a.axes[0].size
+
+        def cum(r):
+            # ghost recurrence instance at the index that is read
+            run.assume(((r >= 0) & (r < n)).implies(prefix(r + 1) == prefix(r) + num(a.at(r))))
+            return prefix(r + 1)
+        out = Arr(a.axes, cum, "float" if a.dtype in ("int", "bool", "float") else a.dtype)
+        out.prefix_ghost = ghosts[-1]
+        return out
+
+    def argsort(self, a):
+        """A permutation pi of 0..n-1 with a[pi[r]] <= a[pi[r+1]] (tie order unspecified).
+        Facts are supplied by instantiation: range and inverse at every evaluation, order at
+        the indices a contract names (pi.sorted_fact)."""
+        if a.ndim != 1:
+            raise Undecided("argsort of n-d")
+        run = engine()
+        n = a.axes[0].size
+        k0 = len(run.__dict__.setdefault("perms", []))
+        pf = z3.Function("pi%d" % k0, z3.IntSort(), z3.IntSort())
+        qf = z3.Function("pi%d_inv" % k0, z3.IntSort(), z3.IntSort())
+
+        def pi(k):
+            v = Num(pf(k.z()))
+            run.assume(((k >= 0) & (k < n)).implies((v >= 0) & (v < n) & (Num(qf(v.z())) == k)))
+            return v
+
+        def inv(c):
+            c = num(c)
+            v = Num(qf(c.z()))
+            run.assume(((c >= 0) & (c < n)).implies((v >= 0) & (v < n) & (Num(pf(v.z())) == c)))
+            return v
+        out = Arr([Axis(n)], pi, "int")
+        out.inverse = inv
+        out.sorted_fact = lambda r: ((num(r) >= 0) & (num(r) + 1 < n)).implies(num(a.at(out.at(num(r)))) <= num(a.at(out.at(num(r) + 1))))
+        run.perms.append(out)
+        return out
+
+    def searchsorted(self, a, v, side="left"):
+        """Least k with a[k] >= v (k = n if none); requires a non-decreasing."""
+        if side not in ("left", "right"):
+            raise Undecided("searchsorted side")
+        run = engine()
+        n = a.axes[0].size
+        r = sym.fresh_int("sorted_at")
+        run.oblige("searchsorted-argument-is-sorted", ((r >= 0) & (r + 1 < n)).implies(num(a.at(r)) <= num(a.at(r + 1))),
+                   kind="call-pre")
+        k = sym.fresh_int("ss")
+        run.assume((k >= 0) & (k <= n))
+        if side == "left":
+            run.assume((k < n).implies(num(a.at(k)) >= num(v)))
+            run.assume((k > 0).implies(num(a.at(k - 1)) < num(v)))
+        else:
+            run.assume((k < n).implies(num(a.at(k)) > num(v)))
+            run.assume((k > 0).implies(num(a.at(k - 1)) <= num(v)))
+        rec = run.__dict__.setdefault("searches", [])
+        rec.append({"k": k, "a": a, "v": v, "side": side,
+                    "below_fact": lambda t: ((num(t) >= 0) & (num(t) < k)).implies(num(a.at(num(t))) < num(v))})
+        return k
 
     def real(self, a):
         return a.real
